@@ -747,6 +747,68 @@ fn run_case(c: &Case, drv: &mut Driver, rep: Option<&mut Counters>) -> Outcome {
             }
             continue;
         }
+        // Framing first: the record list the real `RecordIter` reads from this part against the model's (and, for a
+        // well-formed sheet, against the ids of the description). A reader that mis-frames records produces garbage
+        // cells anywhere in the u32 square; it is reported here, with the file, and the dense range is not built.
+        #[cfg(feature = "hooks")]
+        {
+            let path = format!("xl/{}", book.sheet_path(i));
+            let recs = guarded(|| calamine::verif_hooks::xlsb::c03_records(&file, &path));
+            let got = match &recs {
+                Ok(Ok((recs, trunc))) => format!("{} {}", if *trunc { "io" } else { "ok" }, recs.iter().map(|(t, p)| format!("{t}:{}", hex(p))).collect::<Vec<_>>().join(" ")),
+                Ok(Err(e)) => format!("err:{e}"),
+                Err(p) => format!("panic:{p}"),
+            };
+            let model = drv.ask(&format!("recs {}", hex(&parts[i])));
+            if got.trim_end() != model.trim_end() {
+                let clip = |s: &str| -> String { if s.len() > 400 { format!("{}…[{} chars]", &s[..400], s.len()) } else { s.to_string() } };
+                let ids_got: Vec<u16> = match &recs {
+                    Ok(Ok((r, _))) => r.iter().map(|x| x.0).collect(),
+                    _ => vec![],
+                };
+                let ids_want: Vec<u16> = sh.items.iter().map(|f| item_id(&f.it)).collect();
+                if wellformed && sh.cut.is_none() && ids_got != ids_want {
+                    out.fails.push(("impl_vs_spec".into(), "framing".into(), clip(&got), clip(&model), format!("record ids {:?}", &ids_want[..ids_want.len().min(40)])));
+                }
+                out.fails.push(("impl_vs_model".into(), "framing".into(), clip(&got), clip(&model), "-".into()));
+                if let Some(rep) = rep.as_deref_mut() {
+                    rep.count("skipped_sheet_framing_differs");
+                }
+                continue;
+            }
+        }
+        // Second guard, public API only: the cells the real `next_cell` yields must not span more than the cap either
+        // (the `area` test above speaks for the model, not for a changed implementation).
+        let impl_area = guarded(|| -> Option<u128> {
+            let mut rd = wb.worksheet_cells_reader(&sh.name).ok()?;
+            let (mut r0, mut r1, mut c0, mut c1) = (u32::MAX, 0u32, u32::MAX, 0u32);
+            let mut any = false;
+            while let Ok(Some(cell)) = rd.next_cell() {
+                if matches!(cell.get_value(), calamine::DataRef::Empty) {
+                    continue;
+                }
+                let (r, cc) = cell.get_position();
+                any = true;
+                r0 = r0.min(r);
+                r1 = r1.max(r);
+                c0 = c0.min(cc);
+                c1 = c1.max(cc);
+            }
+            if any {
+                Some((r1 - r0) as u128 + 1).map(|h| h * ((c1 - c0) as u128 + 1))
+            } else {
+                Some(0)
+            }
+        });
+        if let Ok(Some(a)) = impl_area {
+            if a > 1 << 21 {
+                out.fails.push(("impl_vs_model".into(), "impl_bbox_over_cap".into(), format!("next_cell yields cells spanning {a} positions"), format!("area {area}"), "-".into()));
+                if let Some(rep) = rep.as_deref_mut() {
+                    rep.count("skipped_sheet_impl_area");
+                }
+                continue;
+            }
+        }
         let model = normalise_model(&drv.ask(&format!("dec {fm} {} {ss} {}", c.date1904 as u8, hex(&parts[i]))));
         let got = match guarded(|| wb.worksheet_range(&sh.name)) {
             Ok(Ok(r)) => canon_range(&r),
